@@ -13,7 +13,7 @@ import numpy as np
 
 from . import refmodel
 from .refmodel import Unsupported, Skip, BINARY
-from .terms import sid, Fn, Pred, SortKey, ScriptedRandomState, scripted_perm
+from .terms import sid, all_ids, Fn, Pred, SortKey, ScriptedRandomState, scripted_perm
 
 
 # ---------------------------------------------------------------- building
@@ -28,6 +28,13 @@ class Fns:
 
     def sortkey(self, stage):
         return SortKey()
+
+    def guard(self, poison_id, stage):
+        def guard_fn(x):
+            if poison_id in all_ids(x):
+                raise PoisonedExample(('evaluated an example that was left out', poison_id))
+            return x
+        return guard_fn
 
     def filterraiser(self, ld, mod, stage):
         FE = ld.core.FilterException
@@ -60,6 +67,10 @@ def make_source(ld, spec):
     if warranty == 'tuple':
         return ld.new(tuple(data))
     return ld.new(data, immutable_warranty=warranty)
+
+
+class PoisonedExample(Exception):
+    """Raised by a 'mapguard' function for the one example it guards."""
 
 
 def index_container(kind, idx):
@@ -225,6 +236,8 @@ def build(ld, prog, fns=None, stage_prefix='s', hook=None):
             ds = ds.cache(B(False)) if pos else ds.cache(lazy=B(False))
         elif k == 'catch':
             ds = ds.catch()
+        elif k == 'mapguard':
+            ds = ds.map(fns.guard(op[1], stage))
         elif k == 'catchfilter':
             ds = ds.map(fns.filterraiser(ld, op[1], stage)).catch()
         elif k == 'copy':
@@ -311,6 +324,7 @@ def alphabet(n, kind, small=False):
             ('shard', 2, 0), ('shard', 2, 1), ('shard', 3, 1), ('split', 3, 2),
             ('split', 1, 0), ('cache',), ('ecache',), ('catch',), ('catchfilter', 2),
             ('catchfilter', 3), ('copy',), ('freeze',),
+            ('mapguard', 0), ('mapguard', 1), ('mapguard', max(n - 1, 0)),
             ('prefetch1', 1), ('prefetch1', 2), ('prefetcht', 2, 2), ('prefetcht', 2, 3),
             ('apply_eager', 'h'), ('apply_lazy', 'h')]
     ops += [('concat3', kind, 'method'), ('concat3', kind, 'method-list'),
